@@ -129,7 +129,12 @@ func buildAlphabet(c *vf.Ctx) []string {
 type op struct {
 	K   string `json:"op"`            // set del get has size stream root commit reopen probe full
 	Key string `json:"key,omitempty"` // for set/del/get/has
-	Val int    `json:"val,omitempty"` // set: index into vals (map flavour); reopen: 1 = light check
+	Val int    `json:"val,omitempty"` // set: index into vals (map flavour); reopen (old replay files): 1 = light check
+	// reopen only: what is called on the new instance before the history goes on.
+	// "" / "full": WasRestoredFromStorage, Root, Size, Has/Get of every key, Stream; "light": Size, Root;
+	// "none": nothing at all (the next op of the history is the first call on the instance);
+	// "root", "size", "has", "get", "stream", "restored": only that accessor (Key for has/get).
+	Mode string `json:"mode,omitempty"`
 }
 
 type history struct {
@@ -225,9 +230,115 @@ func genHistory(c *vf.Ctx, alphabet []string, idx int) history {
 		}
 		n += len(h.Ops)
 	}
+	absentKey := func() string {
+		var as []string
+		for _, k := range h.Keys {
+			if !present[k] {
+				as = append(as, k)
+			}
+		}
+		if len(as) == 0 {
+			return h.Keys[rng.Intn(len(h.Keys))]
+		}
+		return as[rng.Intn(len(as))]
+	}
+	// forced != "": the previous op was a reopen that called nothing on the new instance; the next
+	// op is drawn uniformly from all accessor kinds, so that each of them is the first call on a
+	// restored instance equally often.
+	forced := ""
+	firstKinds := []string{"set-new", "set-present", "del-present", "del-absent", "commit", "size", "root", "has", "get", "stream", "probe-then-set", "full"}
+	reopenOp := func() op {
+		o := op{K: "reopen"}
+		switch r := rng.Intn(20); {
+		case r < 4:
+			o.Mode = "full"
+		case r < 6:
+			o.Mode = "light"
+		case r < 13:
+			o.Mode = "none"
+			forced = firstKinds[rng.Intn(len(firstKinds))]
+		default:
+			o.Mode = []string{"root", "size", "has", "get", "stream", "restored"}[rng.Intn(6)]
+			if o.Mode == "get" && h.Flavour != "map" {
+				o.Mode = "has"
+			}
+			if o.Mode == "has" || o.Mode == "get" {
+				o.Key = pickKey(rng.Intn(3) > 0)
+			}
+			if rng.Intn(2) == 0 { // a single read, then a mutation
+				forced = firstKinds[rng.Intn(4)]
+			}
+		}
+		return o
+	}
+	otherVal := func(v int) int {
+		for {
+			o := 1 + rng.Intn(len(vals)-1)
+			if !bytes.Equal(vals[o], vals[v]) {
+				return o
+			}
+		}
+	}
 	for len(h.Ops) < n {
 		r := rng.Intn(100)
+		if forced != "" {
+			f := forced
+			forced = ""
+			switch f {
+			case "set-new":
+				h.Ops = append(h.Ops, newSet(absentKey()))
+			case "set-present":
+				h.Ops = append(h.Ops, newSet(pickKey(true)))
+			case "del-present":
+				o := op{K: "del", Key: pickKey(true)}
+				delete(present, o.Key)
+				h.Ops = append(h.Ops, o)
+			case "del-absent":
+				o := op{K: "del", Key: absentKey()}
+				delete(present, o.Key)
+				h.Ops = append(h.Ops, o)
+			case "commit":
+				h.Ops = append(h.Ops, op{K: "commit"})
+				if rng.Intn(2) == 0 {
+					h.Ops = append(h.Ops, reopenOp())
+				}
+			case "has":
+				h.Ops = append(h.Ops, op{K: "has", Key: pickKey(rng.Intn(2) == 0)})
+			case "get":
+				if h.Flavour == "map" {
+					h.Ops = append(h.Ops, op{K: "get", Key: pickKey(rng.Intn(2) == 0)})
+				} else {
+					h.Ops = append(h.Ops, op{K: "has", Key: pickKey(rng.Intn(2) == 0)})
+				}
+			case "probe-then-set":
+				h.Ops = append(h.Ops, op{K: "probe"}, newSet(absentKey()))
+			default: // size root stream full
+				h.Ops = append(h.Ops, op{K: f})
+			}
+			continue
+		}
 		switch {
+		case r < 4:
+			// several Commits on ONE instance, the contents returning to an earlier committed state:
+			// Set k=v, Commit, (Set k=v2 | Delete k), [Commit], Set k=v, Commit, reopen
+			k := pickKey(rng.Intn(2) == 0)
+			first := newSet(k)
+			if first.Val == valNil {
+				first.Val = valEmpty
+			}
+			h.Ops = append(h.Ops, first, op{K: "commit"})
+			if h.Flavour == "map" && rng.Intn(2) == 0 {
+				h.Ops = append(h.Ops, op{K: "set", Key: k, Val: otherVal(first.Val)})
+			} else {
+				h.Ops = append(h.Ops, op{K: "del", Key: k})
+			}
+			if rng.Intn(3) > 0 {
+				h.Ops = append(h.Ops, op{K: "commit"})
+			}
+			h.Ops = append(h.Ops, first, op{K: "commit"})
+			if rng.Intn(4) > 0 {
+				h.Ops = append(h.Ops, reopenOp())
+			}
 		case r < 40:
 			h.Ops = append(h.Ops, newSet(pickKey(rng.Intn(4) == 0)))
 		case r < 58:
@@ -250,10 +361,8 @@ func genHistory(c *vf.Ctx, alphabet []string, idx int) history {
 			h.Ops = append(h.Ops, op{K: "root"})
 		case r < 96:
 			h.Ops = append(h.Ops, op{K: "commit"})
-			if rng.Intn(2) == 0 {
-				// Val 1: "light" reopen – Root/Size/WasRestoredFromStorage only, so that the following
-				// mutations hit still-unresolved (lazy) trie nodes; contents are checked by later ops.
-				h.Ops = append(h.Ops, op{K: "reopen", Val: rng.Intn(2)})
+			if rng.Intn(5) < 3 {
+				h.Ops = append(h.Ops, reopenOp())
 			}
 		default:
 			h.Ops = append(h.Ops, op{K: "probe"})
@@ -324,10 +433,27 @@ type runner struct {
 	lastWasCommit bool
 	onRoot        func(r *runner, pos int, root [32]byte) *disagreement // may be nil
 	stats         *stats
+
+	fresh           bool       // r.in is a restored instance on which nothing has been called yet
+	pendingRoot     *[32]byte  // Root before the reopen, not yet compared (cleared by the next mutation)
+	commitsOnInst   int        // Commits on the current instance
+	committedOnInst [][16]byte // content keys at those Commits
+	returned        bool       // some Commit on this instance returned to an earlier committed state
+}
+
+// first records which accessor is the first call on a restored instance.
+func (r *runner) first(kind string) {
+	if r.fresh {
+		r.fresh = false
+		r.stats.first[kind]++
+	}
 }
 
 type stats struct {
 	ops, reopens, probes, nilSets, audits, rootObs, fullChecks, streams, overwrites, deletesPresent, deletesAbsent, reopensEmpty, reopensLight int64
+	reopensMultiCommit, commitReturns, reopensAfterReturn, deferredRootChecks                                                                  int64
+	first                                                                                                                                      map[string]int64 // first call on a restored instance, by accessor
+	modes                                                                                                                                      map[string]int64 // reopen modes
 }
 
 func (s *stats) flush(c *vf.Ctx) {
@@ -344,7 +470,19 @@ func (s *stats) flush(c *vf.Ctx) {
 	c.Count("overwrites", int(s.overwrites))
 	c.Count("deletes_present", int(s.deletesPresent))
 	c.Count("deletes_absent", int(s.deletesAbsent))
+	c.Count("reopens_after_two_or_more_commits_on_one_instance", int(s.reopensMultiCommit))
+	c.Count("commits_returning_to_an_earlier_committed_state", int(s.commitReturns))
+	c.Count("reopens_after_return_to_earlier_committed_state", int(s.reopensAfterReturn))
+	c.Count("deferred_root_checks_after_reopen", int(s.deferredRootChecks))
+	for k, v := range s.first {
+		c.Count("first_call_on_restored_instance:"+k, int(v))
+	}
+	for k, v := range s.modes {
+		c.Count("reopen_mode:"+k, int(v))
+	}
 }
+
+func newStats() *stats { return &stats{first: map[string]int64{}, modes: map[string]int64{}} }
 
 func newRunner(h *history, st *stats) *runner {
 	r := &runner{h: h, store: mapdb.NewMapDB(), model: map[string]int{}, stats: st}
@@ -395,6 +533,7 @@ func (r *runner) contentKey() [16]byte {
 }
 
 func (r *runner) checkHas(pos int, k, kind string) *disagreement {
+	r.first("Has")
 	return r.guard(pos, kind, func() *disagreement {
 		got, err := r.in.Has(k)
 		if err != nil {
@@ -409,6 +548,11 @@ func (r *runner) checkHas(pos int, k, kind string) *disagreement {
 }
 
 func (r *runner) checkGet(pos int, k, kind string) *disagreement {
+	if r.h.Flavour == "map" {
+		r.first("Get")
+	} else {
+		r.first("Has")
+	}
 	return r.guard(pos, kind, func() *disagreement {
 		got, ex, err := r.in.Get(k)
 		if err != nil {
@@ -426,6 +570,7 @@ func (r *runner) checkGet(pos int, k, kind string) *disagreement {
 }
 
 func (r *runner) checkSize(pos int, kind string) *disagreement {
+	r.first("Size")
 	return r.guard(pos, kind, func() *disagreement {
 		if got := r.in.Size(); got != len(r.model) {
 			return &disagreement{r.fp(kind), fmt.Sprintf("Size() = %d, model has %d keys", got, len(r.model)), pos}
@@ -436,6 +581,7 @@ func (r *runner) checkSize(pos int, kind string) *disagreement {
 
 func (r *runner) checkStream(pos int, kind string) *disagreement {
 	r.stats.streams++
+	r.first("Stream")
 	return r.guard(pos, kind, func() *disagreement {
 		seen := map[string][]byte{}
 		dup := ""
@@ -471,12 +617,21 @@ func (r *runner) checkStream(pos int, kind string) *disagreement {
 }
 
 func (r *runner) checkRoot(pos int, kind string) (root [32]byte, d *disagreement) {
+	r.first("Root")
 	d = r.guard(pos, kind, func() *disagreement {
 		root = r.in.Root()
 		return nil
 	})
 	if d != nil {
 		return
+	}
+	if r.pendingRoot != nil { // no mutation since the reopen: Root must still be the committed one
+		before := *r.pendingRoot
+		r.pendingRoot = nil
+		r.stats.deferredRootChecks++
+		if root != before {
+			return root, &disagreement{r.fp("Reopen/Root"), fmt.Sprintf("Root %x of the instance opened after Commit differs from Root before %x", root[:6], before[:6]), pos}
+		}
 	}
 	r.stats.rootObs++
 	if r.onRoot != nil {
@@ -514,6 +669,8 @@ func (r *runner) step(pos int, o op) *disagreement {
 	r.lastWasCommit = false
 	switch o.K {
 	case "set":
+		r.first("Set")
+		r.pendingRoot = nil
 		if d := r.guard(pos, "Set", func() *disagreement {
 			if err := r.in.Set(o.Key, vals[o.Val]); err != nil {
 				return &disagreement{r.fp("Set/error"), fmt.Sprintf("Set(%q, %s) returned error %v", o.Key, show(vals[o.Val]), err), pos}
@@ -552,6 +709,8 @@ func (r *runner) step(pos int, o op) *disagreement {
 		} else {
 			r.stats.deletesAbsent++
 		}
+		r.first("Delete")
+		r.pendingRoot = nil
 		if d := r.guard(pos, "Delete", func() *disagreement {
 			got, err := r.in.Delete(o.Key)
 			if err != nil {
@@ -582,6 +741,7 @@ func (r *runner) step(pos int, o op) *disagreement {
 	case "full":
 		return r.checkFull(pos, "")
 	case "commit":
+		r.first("Commit")
 		if d := r.guard(pos, "Commit", func() *disagreement {
 			if err := r.in.Commit(); err != nil {
 				return &disagreement{r.fp("Commit/error"), fmt.Sprintf("Commit returned error %v", err), pos}
@@ -592,6 +752,18 @@ func (r *runner) step(pos int, o op) *disagreement {
 		}
 		r.committed = true
 		r.lastWasCommit = true
+		ck := r.contentKey()
+		if n := len(r.committedOnInst); n > 0 && r.committedOnInst[n-1] != ck {
+			for _, e := range r.committedOnInst[:n-1] {
+				if e == ck {
+					r.stats.commitReturns++
+					r.returned = true
+					break
+				}
+			}
+		}
+		r.committedOnInst = append(r.committedOnInst, ck)
+		r.commitsOnInst++
 	case "probe":
 		r.stats.probes++
 		return r.guard(pos, "Probe", func() *disagreement {
@@ -606,29 +778,70 @@ func (r *runner) step(pos int, o op) *disagreement {
 			return nil // generator never emits this; hand-edited replays are ignored here
 		}
 		r.stats.reopens++
-		var before [32]byte
-		if d := r.guard(pos, "Reopen", func() *disagreement {
-			before = r.in.Root()
-			r.in = open(r.h.Flavour, r.store)
-			if !r.in.WasRestoredFromStorage() {
-				return &disagreement{r.fp("Reopen/WasRestoredFromStorage"), "instance opened after Commit reports WasRestoredFromStorage() = false", pos}
+		mode := o.Mode
+		if mode == "" {
+			mode = "full"
+			if o.Val == 1 {
+				mode = "light"
 			}
-			if after := r.in.Root(); after != before {
-				return &disagreement{r.fp("Reopen/Root"), fmt.Sprintf("Root after Commit+reopen %x differs from Root before %x", after[:6], before[:6]), pos}
-			}
-			return nil
-		}); d != nil {
-			return d
+		}
+		r.stats.modes[mode]++
+		if r.commitsOnInst >= 2 {
+			r.stats.reopensMultiCommit++
+		}
+		if r.returned {
+			r.stats.reopensAfterReturn++
 		}
 		if len(r.model) == 0 {
 			r.stats.reopensEmpty++
 		}
-		if o.Val == 1 {
+		var before [32]byte
+		if d := r.guard(pos, "Reopen", func() *disagreement {
+			before = r.in.Root() // old instance, directly after its Commit
+			r.in = open(r.h.Flavour, r.store)
+			return nil
+		}); d != nil {
+			return d
+		}
+		r.fresh, r.pendingRoot = true, &before
+		r.commitsOnInst, r.committedOnInst, r.returned = 0, nil, false
+		restored := func() *disagreement {
+			r.first("WasRestoredFromStorage")
+			return r.guard(pos, "Reopen/WasRestoredFromStorage", func() *disagreement {
+				if !r.in.WasRestoredFromStorage() {
+					return &disagreement{r.fp("Reopen/WasRestoredFromStorage"), "instance opened after Commit reports WasRestoredFromStorage() = false", pos}
+				}
+				return nil
+			})
+		}
+		switch mode {
+		case "none":
+			return nil
+		case "restored":
+			return restored()
+		case "root":
+			_, d := r.checkRoot(pos, "Reopen/Root")
+			return d
+		case "size":
+			return r.checkSize(pos, "Reopen/Size")
+		case "has":
+			return r.checkHas(pos, o.Key, "Reopen/Has")
+		case "get":
+			return r.checkGet(pos, o.Key, "Reopen/Get")
+		case "stream":
+			return r.checkStream(pos, "Reopen/Stream")
+		case "light":
 			r.stats.reopensLight++
 			if d := r.checkSize(pos, "Reopen/Size"); d != nil {
 				return d
 			}
 			_, d := r.checkRoot(pos, "Reopen/Root")
+			return d
+		}
+		if d := restored(); d != nil {
+			return d
+		}
+		if _, d := r.checkRoot(pos, "Reopen/Root"); d != nil {
 			return d
 		}
 		return r.checkFull(pos, "Reopen/")
@@ -759,7 +972,17 @@ func buildSequences(c *vf.Ctx, alphabet []string, r *runner, ck [16]byte) (sorte
 		if rng.Intn(8) == 0 {
 			shuffled.Ops = append(shuffled.Ops, op{K: "commit"})
 			if rng.Intn(2) == 0 {
-				shuffled.Ops = append(shuffled.Ops, op{K: "reopen", Val: rng.Intn(2)})
+				o := op{K: "reopen", Mode: []string{"full", "light", "none", "root", "size", "has", "get", "stream", "restored"}[rng.Intn(9)]}
+				if o.Mode == "get" && r.h.Flavour != "map" {
+					o.Mode = "has"
+				}
+				if o.Mode == "has" || o.Mode == "get" {
+					o.Key = alphabet[rng.Intn(len(alphabet))]
+					if len(sh) > 0 && rng.Intn(3) > 0 {
+						o.Key = sh[rng.Intn(len(sh))]
+					}
+				}
+				shuffled.Ops = append(shuffled.Ops, o)
 			}
 		}
 	}
@@ -869,7 +1092,7 @@ func (e *explorer) report(d *disagreement, rec replayRec) {
 func (e *explorer) runHistory(idx int) {
 	c := e.c
 	h := genHistory(c, e.alphabet, idx)
-	st := &stats{}
+	st := newStats()
 	defer st.flush(c)
 	tb := e.tables[h.Flavour]
 	r := newRunner(&h, st)
@@ -1009,7 +1232,7 @@ func replay(c *vf.Ctx) {
 		fmt.Fprintln(os.Stderr, err)
 		os.Exit(3)
 	}
-	st := &stats{}
+	st := newStats()
 	defer st.flush(c)
 	ra, cka, da := runToEnd(&rec.A, st)
 	if da != nil {
@@ -1043,7 +1266,7 @@ func run(c *vf.Ctx) {
 		replay(c)
 		return
 	}
-	c.SetRule("one evaluation = one operation of a seeded sequential history (20-60 ops, a third preceded by a fill of the key set, of Set/Add, Delete, Get, Has, Size, Stream, Root, Commit, Reopen-after-Commit, Probe; 70% map / 30% set flavour; key subsets of a 25-key alphabet whose groups share 8-20 (thorough: 8-22) leading SHA-256 path bits, plus the empty key; values nil-encoded, []byte{}, 1 byte, 100 bytes; half of the map histories never use a nil-encoded value) executed on ads over mapdb and compared with a plain map; every Root observation is entered in a run-wide contents<->root table. distinct_nontrivial = distinct non-empty content sets whose Root was compared with at least two other, differently ordered op sequences reaching the same contents (sorted rebuild and shuffled rebuild with overwrite/delete-reinsert/foreign-key/commit noise); distinct_cross_history_content_sets = content sets reached by two different generated histories")
+	c.SetRule("one evaluation = one operation of a seeded sequential history (20-60 ops, a third preceded by a fill of the key set, of Set/Add, Delete, Get, Has, Size, Stream, Root, Commit, Reopen-after-Commit (what is called first on the restored instance varies: nothing / one accessor / Size+Root / full comparison, the first call being each of Size, Root, Has, Get, Stream, Set/Add, Delete, Commit, WasRestoredFromStorage; full comparisons then happen later), several Commits on one instance incl. contents returning to an earlier committed state, Probe; 70% map / 30% set flavour; key subsets of a 25-key alphabet whose groups share 8-20 (thorough: 8-22) leading SHA-256 path bits, plus the empty key; values nil-encoded, []byte{}, 1 byte, 100 bytes; half of the map histories never use a nil-encoded value) executed on ads over mapdb and compared with a plain map; every Root observation is entered in a run-wide contents<->root table. distinct_nontrivial = distinct non-empty content sets whose Root was compared with at least two other, differently ordered op sequences reaching the same contents (sorted rebuild and shuffled rebuild with overwrite/delete-reinsert/foreign-key/commit noise); distinct_cross_history_content_sets = content sets reached by two different generated histories")
 	t0 := time.Now()
 	e := &explorer{c: c, alphabet: buildAlphabet(c), hashes: map[string][32]byte{}, tables: map[string]*table{"map": newTable(), "set": newTable()}}
 	for _, k := range e.alphabet {
@@ -1075,6 +1298,13 @@ func run(c *vf.Ctx) {
 	c.Require("cross_history_content_sets", n/40)
 	c.Require("root_pairs_cross_history", n/10)
 	c.Require("reopens", n/4)
+	for _, k := range []string{"Size", "Root", "Has", "Get", "Stream", "Set", "Delete", "Commit", "WasRestoredFromStorage"} {
+		c.Require("first_call_on_restored_instance:"+k, n/100)
+	}
+	c.Require("reopen_mode:none", n/10)
+	c.Require("reopens_after_two_or_more_commits_on_one_instance", n/10)
+	c.Require("reopens_after_return_to_earlier_committed_state", n/50)
+	c.Require("deferred_root_checks_after_reopen", n/50)
 	c.Require("max_trie_depth", 15)
 	c.Assume("the plain Go map model and SHA-256 are correct; mapdb is the store under ads (faults of the store are not injected here)")
 }
